@@ -140,6 +140,22 @@ def check_bm_fnptr(ctx):
     ctx.expect(paths, ret=1)
 
 
+def check_bm_signature(ctx):
+    b0, b1 = bm_bases(ctx)
+    paths = ctx.run("k_bm_cb_signature", [b0, b1])
+    for q in paths:
+        if q.status != "ret":
+            ctx.fail(q, "ended %s %s" % (q.status, q.info))
+            continue
+        lg = q.user.get("log") or []
+        reg = {conc(e[2]): conc(e[3]) for e in lg if e[0] == 0x206}
+        unreg = {conc(e[2]): conc(e[3]) for e in lg if e[0] == 0x207}
+        ctx.require(q, z3.BoolVal(len(reg) == 3 and reg == unreg),
+                    "every released registration is announced to the backend with the signature it was registered with (slots %s vs %s)" % (reg, unreg))
+    ctx.only(paths, "ret")
+    ctx.expect(paths, ret=1)
+
+
 def check_bm_void(ctx):
     b0, b1 = bm_bases(ctx)
     a = ctx.sym("a", 16)
@@ -203,6 +219,7 @@ def jobs(tier, seed):
            Job("C12_bm_opaque", src, [dict(name="BM opaque callback", fn=check_bm_long, kw=dict(k="k_bm_cb_opaque", opaque=True), unwind=200)], native=False),
            Job("C12_bm_ptr", src, [dict(name="BM pointer callback", fn=check_bm_ptr, unwind=200)], native=False),
            Job("C12_bm_fnptr", src, [dict(name="BM function-pointer result", fn=check_bm_fnptr, unwind=200)], native=False),
+           Job("C12_bm_signature", src, [dict(name="BM registration and release use the same guest signature", fn=check_bm_signature, unwind=200)], native=False),
            Job("C12_bm_void", src, [dict(name="BM void callback", fn=check_bm_void, unwind=200)], native=False)]
     out.append(Job("C12_noop_nested", NOOP + '#include "C12_nested.inc"\n', [dict(name="noop nested call trees", fn=check_nested, unwind=400)]))
     out.append(Job("C12_noop_etls_nested", NOOP_ETLS + '#include "C12_nested.inc"\nRLBOX_NOOP_SANDBOX_STATIC_VARIABLES();\n',
